@@ -18,7 +18,8 @@ ASSUMPTIONS = [
     'that usim constructs by name - is enumerated instead (all orders for <= 3 elements); set literals would escape this and '
     'are reported by an AST scan',
     'configurations compared: wait-queue backend heap/SD, python -O (programs that hit no usage assertion), PYTHONHASHSEED '
-    '0/1/2, three deterministic heap-perturbation patterns; all in fresh processes',
+    '0/1/2, three deterministic heap-perturbation patterns, the cyclic garbage collector run after every single activation (all '
+    'other configurations run with the collector off: the two extremes of when garbage dies); all in fresh processes',
     'the digest covers every interpreter log record (activity, operation, time, value) and every activation (time, activity, '
     'signal kind) in order; class names of Concurrent specialisations are not part of it',
 ]
@@ -32,6 +33,8 @@ CONFIGS = {
     'heap1': {'VK_HEAP_PATTERN': '1'},
     'heap2': {'VK_HEAP_PATTERN': '2', 'PYTHONHASHSEED': '1'},
     'heap3': {'VK_HEAP_PATTERN': '3', 'USIM_WAITQUEUE': 'SD'},
+    'gc': {'VK_GC': '1'},
+    'gcheap': {'VK_GC': '1', 'VK_HEAP_PATTERN': '2'},
 }
 
 
@@ -144,6 +147,7 @@ def corpus(tier, which):
                 continue
             prog = p['prog'] if isinstance(p, dict) and 'prog' in p else p
             out.append(prog)
+    out += recycled_family()
     if which == 'sets':
         out += sets_family()
     else:
@@ -153,6 +157,38 @@ def corpus(tier, which):
         frac = [p for p in c01.cases('quick') if '0.9' in repr(p['roots']) or '0.7' in repr(p['roots'])]
         out += frac[::max(1, len(frac) // (120 * div))]
     _CORPUS[key] = out
+    return out
+
+
+def recycled_family():
+    """long-lived and short-lived comparisons / waits on the same objects over several steps: whatever is freed and re-used in
+    between (by reference counting, by the cyclic collector, at whatever address) may not change who runs when"""
+    out = []
+    for nshort in (1, 2, 3):
+        for long_first in (True, False, None):
+            for steps in (3, 5):
+                shorts = [['DO', 's%d' % i, [x for k in range(1, steps + 1) for x in (['WAIT', ['T', 'X', '>=', k]], ['PROBE', 'now'])]]
+                          for i in range(nshort)]
+                longs = [['DO', 'l0', [['WAIT', ['T', 'X', '>=', 2]], ['PROBE', 'now'], ['WAIT', ['T', 'X', '>=', steps]], ['PROBE', 'now']]],
+                         ['DO', 'l1', [['WAIT', ['TT', 'X', '>=', 'Y']], ['PROBE', 'now'], ['WAIT', ['T', 'X', '>=', steps - 1]], ['PROBE', 'now']]]]
+                kids = (longs + shorts) if long_first else ((shorts + longs) if long_first is False else (shorts[:1] + longs + shorts[1:]))
+                helper = [x for k in range(steps) for x in (['D', 1], ['TADD', 'X', 1])]
+                kids.append(['DO', 'h', helper])
+                out.append({'objs': {'X': ['Tracked', 0], 'Y': ['Tracked', 3]}, '_nops': 80, 'roots': [['root', [['SCOPE', 's', kids]]]]})
+    # a value that was waited for earlier and is now set to what it already is, next to a runnable competitor
+    for nw in (1, 2):
+        kids = [['DO', 'w%d' % i, [['WAIT', ['T', 'X', '>=', 1]], ['PROBE', 'now']]] for i in range(nw)]
+        kids.append(['DO', 'h', [['D', 1], ['TADD', 'X', 1], ['D', 1], ['TSET', 'X', 1], ['PROBE', 'now'], ['TSET', 'X', 1], ['PROBE', 'now']]])
+        kids.append(['DO', 'spin', [['EQ', 2], ['SPINLOG', 4]]])
+        out.append({'objs': {'X': ['Tracked', 0]}, '_nops': 60, 'roots': [['root', [['SCOPE', 's', kids]]]]})
+    # the same with flags that are set and reset, and resource levels
+    for n in (2, 3):
+        kids = [['DO', 'w%d' % i, [['WAIT', ['F', 'A']], ['PROBE', 'now'], ['WAIT', ['NF', 'A']], ['PROBE', 'now'], ['WAIT', ['F', 'A']], ['PROBE', 'now']]]
+                for i in range(n)]
+        kids.append(['DO', 'r0', [['WAIT', ['R', 'r', '>=', {'a': 2}]], ['PROBE', 'now']]])
+        kids.append(['DO', 'h', [['D', 1], ['SET', 'A', True], ['D', 1], ['SET', 'A', False], ['INC', 'r', {'a': 1}], ['D', 1], ['SET', 'A', True],
+                                 ['INC', 'r', {'a': 1}]]])
+        out.append({'objs': {'A': 'Flag', 'r': ['Resources', {'a': 0}]}, '_nops': 80, 'roots': [['root', [['SCOPE', 's', kids]]]]})
     return out
 
 
@@ -315,8 +351,9 @@ def run(tier, seed):
     order = {'waitq': 0, 'monitor': 1, 'sets': 2, 'config': 3}
     violations.sort(key=lambda v: (order[v['part']], v.get('index', 0)))
     shown = 0
+    unconfirmed = []
     for v in violations:
-        if shown >= explore.MAX_VIOLATIONS:
+        if shown >= explore.MAX_VIOLATIONS or len(unconfirmed) >= explore.MAX_VIOLATIONS:
             break
         h = hashlib.sha1(json.dumps(v, sort_keys=True, default=str).encode()).hexdigest()[:12]
         path = os.path.join(replay_root, PROPERTY, h + '.json')
@@ -325,13 +362,19 @@ def run(tier, seed):
         if v['part'] != 'waitq':
             codes = explore.confirm(PROPERTY, path)
             if codes != [1, 1]:
-                print('HARNESS-ERROR: replay of %s did not reproduce (exit codes %r)' % (path, codes))
-                return 2
+                unconfirmed.append((path, codes))       # not believed (see vk/explore.py); counts only if nothing else confirms
+                continue
         for m in v['msgs'][:2]:
             print('  ' + m[:300])
         print('VIOLATION property=%s replay=%s' % (PROPERTY, path))
         status = 1
         shown += 1
+    if unconfirmed and status == 0:
+        for path, codes in unconfirmed:
+            print('HARNESS-ERROR: replay of %s did not reproduce (exit codes %r)' % (path, codes))
+        return 2
+    for path, codes in unconfirmed:
+        print('UNCONFIRMED (not counted): replay of %s did not reproduce (exit codes %r)' % (path, codes))
     k = seed % max(1, len(prog_b))
     evidence = {
         'property_id': PROPERTY, 'tier': tier, 'seed': seed, 'level': LEVEL,
@@ -366,18 +409,22 @@ def replay(case, faults):
     if case['part'] == 'monitor':
         from .. import run as vrun
         return ['turn-order monitor: ' + m for m in digests_of(case['program'])[4]]
-    if case['part'] == 'config' and any(c.startswith('heap') for c in case['configs']):
+    if case['part'] == 'config' and case.get('shard'):
         # address-dependent: reproduce by running the very same shard of the corpus in the same two configurations
+        # (a difference that follows object addresses need not show in every pair of processes - that IS the defect; the very
+        # same shard is therefore run three times per configuration, all started at once: on a tree whose behaviour is a
+        # function of the program all six digests are equal)
         lo, n, step = case['shard']
+        procs = [(name, spawn(case.get('tier', 'quick'), 'config', CONFIGS[name], {}, lo, n, step))
+                 for name in case['configs'] for _ in range(3)]
         digs = []
-        for name in case['configs']:
-            p = spawn(case.get('tier', 'quick'), 'config', CONFIGS[name], {}, lo, n, step)
+        for name, p in procs:
             out, err = p.communicate()
             if p.returncode != 0:
                 return ['replay worker failed: ' + err[-300:]]
-            digs.append(json.loads(out)[str(case['index'])])
-        if digs[0][0] != digs[1][0]:
-            return ['digests differ between %s and %s for corpus program %d' % (case['configs'][0], case['configs'][1], case['index'])]
+            digs.append((name, json.loads(out)[str(case['index'])][0]))
+        if len({d for _, d in digs}) > 1:
+            return ['the digests of corpus program %d differ between runs of the same shard: %r' % (case['index'], digs)]
         return []
     import tempfile
     with tempfile.NamedTemporaryFile('w', suffix='.json', delete=False, dir='/var/tmp') as fh:
